@@ -46,6 +46,15 @@ structure Platform where
   /-- `float64(time.Now().UnixMilli()) / 1000.0` -/
   now : F64
 
+/-- observable events, in the order they happen (ghost: the Go program has no such log; it is the
+    interleaving of what it writes to stdout / stderr, reads from stdin, and which built-ins it enters) -/
+inductive Ev
+  | out (s : List Char)
+  | diag (d : Diag)
+  | read
+  | native
+  deriving DecidableEq, Repr, Inhabited
+
 structure Store where
   envs : List Frame := []
   arrs : List (List Val) := []
@@ -61,15 +70,23 @@ structure Store where
   input : List Char := []
   /-- number of built-in invocations (`Callable.Call` on a native) -/
   nativeCalls : Nat := 0
+  /-- ghost: every observable event so far, in order -/
+  trace : List Ev := []
   deriving Repr, Inhabited
 
 namespace Store
 
 /-- `utils.RuntimeError` -/
 def rte (σ : Store) (msg : List Char) (line : Nat) : Store :=
-  { σ with diags := σ.diags ++ [.runtime msg line], hadError := true }
+  { σ with diags := σ.diags ++ [.runtime msg line], hadError := true, trace := σ.trace ++ [.diag (.runtime msg line)] }
 
-def print (σ : Store) (s : List Char) : Store := { σ with out := σ.out ++ s }
+def print (σ : Store) (s : List Char) : Store := { σ with out := σ.out ++ s, trace := σ.trace ++ [.out s] }
+
+/-- a built-in is entered -/
+def enterNative (σ : Store) : Store := { σ with nativeCalls := σ.nativeCalls + 1, trace := σ.trace ++ [.native] }
+
+/-- a line of stdin is consumed -/
+def consume (σ : Store) (rest : List Char) : Store := { σ with input := rest, trace := σ.trace ++ [.read] }
 
 def newEnv (σ : Store) (parent : Option Nat) : Store × Nat :=
   ({ σ with envs := σ.envs ++ [⟨[], parent⟩] }, σ.envs.length)
